@@ -396,6 +396,46 @@ TARGETS.append(dict(
     alias="def mtuFromMss (mss ip_version : Nat) : Option Int := if mss = 0 then none else some ((mss + P0f.mtuHdr ip_version : Nat) : Int)\n",
 ))
 
+# ---------------------------------------------------------------------------------------------- C06
+HTTP_RECORDS = {
+    "HttpRec": {"signature": (".sig", "Rec:HttpSig"), "is_generic": (".generic", "Bool"),
+                "signature.expected_software": (".sig.software", "Opt:Bytes")},
+}
+TARGETS.append(dict(
+    module="pyp0f.fingerprint.http", func="http_signatures_match", file="HttpSignaturesMatch", lean="httpSigMatch", import_="P0f.Model.Http", open="P0f P0f.Py",
+    pyparams=["signature", "packet_signature"], params=[("s", "HttpSig"), ("minor", "Nat"), ("ph", "List Hdr")], ret="Bool", lean_ret="Bool",
+    env={"signature.version": opt_int("s.version"), "packet_signature.version": ("minor", "Nat"),
+         "packet_signature.header_names": ("()", "Unit"), "signature.headers": ("s.headers", "Rec:SigHdrs"), "packet_signature.headers": ("ph", "Rec:Hdrs")},
+    calls={
+        # `signature.header_names` = lower-cased names of the non-optional signature headers, `absent_headers` = lower-cased absent
+        # names, `packet_signature.header_names` = lower-cased packet header names (sets; dataclass plumbing, C09 / C07 tie them)
+        "signature.header_names.issubset": lambda fn, a, k, e: ("((s.headers.filter (fun h => !h.optional)).all (fun h => (ph.map fun x => lower x.name).contains (lower h.name)))", "Bool"),
+        "signature.absent_headers.intersection": lambda fn, a, k, e: ("(s.absent.filter fun a => (ph.map fun x => lower x.name).contains a)", "List:Bytes"),
+        "headers_match": lambda fn, a, k, e: ("(P0f.headersMatch s.headers ph)", "Bool"),
+    },
+    alias="def httpSigMatch (s : HttpSig) (minor : Nat) (ph : List Hdr) : Bool := P0f.httpSigMatch s minor ph\n",
+))
+TARGETS.append(dict(
+    module="pyp0f.fingerprint.http", func="find_http_match", file="FindHttpMatch", lean="findHttpMatch",
+    import_="P0f.Generated.Logic.HttpSignaturesMatch", open="P0f P0f.Py",
+    pyparams=["packet_signature", "direction", "database"],
+    params=[("recs", "List HttpRec"), ("minor", "Nat"), ("ph", "List Hdr")], ret="Opt:Rec:HttpRec", lean_ret="Option HttpRec",
+    env={"packet_signature": ("()", "Rec:HttpPkt"), "direction": ("()", "Unit")},
+    records=HTTP_RECORDS, opt_types={"generic_match": "Opt:Rec:HttpRec"},
+    calls={"database.iter_values": lambda fn, a, k, e: ("recs", "List:Rec:HttpRec"),
+           "http_signatures_match": lambda fn, a, k, e: ("(P0f.Gen.httpSigMatch " + par(fn.expr(a[0], e)[0]) + " minor ph)", "Bool")},
+    alias="def findHttpMatch_loop0 (recs : List HttpRec) (minor : Nat) (ph : List Hdr) (l : List HttpRec) (g : Option HttpRec) : Option HttpRec := P0f.findHttpLoop minor ph l g\n"
+          "def findHttpMatch (recs : List HttpRec) (minor : Nat) (ph : List Hdr) : Option HttpRec := P0f.findHttpMatch recs minor ph\n",
+))
+TARGETS.append(dict(
+    module="pyp0f.fingerprint.results.http", func="HTTPResult.__post_init__", file="HttpDishonest", lean="dishonest", import_="P0f.Model.Http", open="P0f P0f.Py",
+    pyparams=["self"], params=[("m", "Option HttpRec"), ("ph", "List Hdr")], ret="Bool", lean_ret="Bool",
+    env={"self.match": ("m", "Opt:Rec:HttpRec"), "self.packet_signature.software": ("(softwareOf ph)", "Opt:Bytes")},
+    records=HTTP_RECORDS, assignable=("self.dishonest",),
+    end=lambda fn, env: env["self.dishonest"][0],
+    alias="def dishonest (m : Option HttpRec) (ph : List Hdr) : Bool := P0f.dishonest m ph\n",
+))
+
 for t in TARGETS:
     if "import_" in t:
         t["import"] = t.pop("import_")
